@@ -87,7 +87,9 @@ def user_files(tree):
 
 STD_SETUP = [{'op': 'add', 'user': 'root', 'pw': 'rootpw', 'admin': True},
              {'op': 'add', 'user': 'b', 'pw': 'bpw'},
-             {'op': 'add', 'user': 'c', 'pw': 'cpw', 'default': 2}]
+             {'op': 'add', 'user': 'c', 'pw': 'cpw', 'default': 2},
+             # a name that extends another user's name by a dot-separated part: operations on b must leave it alone
+             {'op': 'add', 'user': 'b.x', 'pw': 'bxpw', 'admin': True}]
 
 
 # =============================================================================================
